@@ -26,7 +26,10 @@ def ev(name, **kw):
 
 def convert(execution) -> dict:
     prog = execution.prog
-    instrs = flatten(prog)
+    try:
+        instrs = flatten(prog)
+    except ValueError as ex:       # map / parallel: validated against Executor.tla, not Durable.tla
+        raise Unsupported(str(ex)) from None
     # wait_for_callback internals are not observed by the interpreter: their deliveries are 'quiet'
     by_path, by_id = {}, {}
     quiet_parents = set()
